@@ -226,7 +226,8 @@ pub fn run_shard<P: Property>(p: &P, tier: Tier, seed: u64, shard: usize, shards
                         r.evaluations += 1;
                         if nontrivial {
                             let js = serde_json::to_string(&case).unwrap();
-                            if hashes.borrow_mut().insert(fnv(&js)) {
+                            // distinct counting is capped per shard (memory); beyond the cap the count is a lower bound
+                            if hashes.borrow().len() < 300_000 && hashes.borrow_mut().insert(fnv(&js)) {
                                 r.nontrivial += 1;
                                 if r.samples.len() < p.sample_limit() {
                                     r.samples.push(serde_json::to_value(&case).unwrap());
